@@ -104,6 +104,8 @@ type FixedProc struct {
 	// KillAtMs > 0: one Kill that many ms after the start (e.g. while the last output of a process that has already
 	// exited is still being written by a slow log writer)
 	KillAtMs int
+	// SinkMs > 0: the log writer of this process takes that long per write
+	SinkMs int
 }
 
 // Run executes one random program and returns the recorded events.
@@ -162,9 +164,9 @@ func Run(opt Options) []rec.Event {
 		if opt.Burst {
 			beh, delay, ops = []string{"exit0", "exit3", "exit137"}[rnd.Intn(3)], 0, 0
 		}
-		killAt := 0
+		killAt, sinkMs := 0, 0
 		if i < len(opt.Fixed) {
-			beh, delay, ops, killAt = opt.Fixed[i].Beh, opt.Fixed[i].Delay, 0, opt.Fixed[i].KillAtMs
+			beh, delay, ops, killAt, sinkMs = opt.Fixed[i].Beh, opt.Fixed[i].Delay, 0, opt.Fixed[i].KillAtMs, opt.Fixed[i].SinkMs
 		}
 		seed := rnd.Int63()
 		idx := i
@@ -182,6 +184,9 @@ func Run(opt Options) []rec.Event {
 					// a slow log writer: the last words of a process are still being written when it is already gone
 					// (exited and reaped, its exit not yet noticed by the supervisor) - a Kill in that window succeeds
 					sk.delay = 250 * time.Millisecond
+				}
+				if sinkMs > 0 {
+					sk.delay = time.Duration(sinkMs) * time.Millisecond
 				}
 				outw = sk
 			}
